@@ -462,6 +462,9 @@ inductive Op where
   | inc (k : String) (delta : Int) (expire : Int)
   /-- the swamp is closed and summoned again from disk -/
   | reload
+  /-- `ShiftExpiredTreasures` with no bound: every record of the expiration index (all timestamps
+      of the runs lie in the past) is returned in index order and deleted -/
+  | shiftExpired
   deriving Repr
 
 def setPair (p : Slot → Pair) (s : Slot) (v : Pair) : Slot → Pair :=
@@ -526,12 +529,22 @@ def answer (cfg : Cfg) (st : St) (q : Query) : Option (List Rec) :=
     -- findInKeyBeacon / findInValueBeacon do not pass the time window on
     some (getMany cfg l (ts q.slot) q.asc q.from_ lim none none)
 
+def expireAll : Query := { slot := .expire, asc := true, from_ := 0, limit := 0, fromT := none, toT := none }
+
+/-- what `CloneAndDeleteExpiredTreasures` walks: the ascending expiration beacon after `buildBeacon` -/
+def shiftList (cfg : Cfg) (st : St) : List Rec :=
+  ((stepBuild cfg st expireAll).pairs (phys cfg .expire)).asc.filter (fun r => r.expire != 0)
+
+def stepShiftExpired (cfg : Cfg) (st : St) : St :=
+  ((shiftList cfg st).map (·.key)).foldl stepDel (stepBuild cfg st expireAll)
+
 def step (cfg : Cfg) (st : St) : Op → St
   | .set rq => stepSet cfg st rq
   | .del k => stepDel st k
   | .read q => stepBuild cfg st q
   | .inc k d e => stepInc cfg st k d e
   | .reload => stepReload st
+  | .shiftExpired => stepShiftExpired cfg st
 
 def run (cfg : Cfg) (h : List Op) : St := h.foldl (step cfg) St.init
 
